@@ -34,6 +34,8 @@ def jobs(tier):
         out.append({'ob': 'verdict_%s_k%d' % (variant, k), 'variant': variant, 'k': k, 'ocap': ocap, 'wcap': wcap,
                     'bounds': 'k=%d parts, |stdout|,|repr|<=%d, |want|<=%d, match=%s' % (k, ocap, wcap, variant),
                     'split_depth': 6 if k >= 4 else None, 'query_timeout_s': 120})
+    out.append({'ob': 'flags_reach_every_comparison', 'harness': 'flags', 'query_timeout_s': 60,
+                'bounds': 'check_got_vs_want on %d printed texts x %d values x %d wants x ELLIPSIS x NORMALIZE_WHITESPACE (concrete menus, real check_output as the comparison)' % (len(G_STDOUT), len(G_VALUE), len(G_WANT))})
     return out
 
 
@@ -216,7 +218,86 @@ class Verdict(Harness):
         return {'variant': self.job['variant'], 'parts': parts}
 
 
+# ---------------------------------------------------------------- the active flags reach every comparison (kind III)
+
+G_STDOUT = ['', 'x\n', 'a7b\n', 'a  b\n']
+G_VALUE = ['<not evaluated>', 'a7b', 'a  b', 'x']           # reprs of the value (the first: the statement was executed, not evaluated)
+G_WANT = ['a...b', 'a7b', 'x\na...b', 'x\na7b', 'a b', 'x']
+G_FLAGS = ['ELLIPSIS', 'NORMALIZE_WHITESPACE']
+
+
+class _Val:
+    def __init__(self, r):
+        self.r = r
+
+    def __repr__(self):
+        return self.r
+
+
+def flags_problems(checker, directive, constants, c):
+    """check_got_vs_want against its documented rule: the want may match the printed text, the value's repr, or the
+    printed text followed by the repr - each comparison made by check_output UNDER THE GIVEN runtime state."""
+    state = {f: bool(c['flags'][i]) for i, f in enumerate(G_FLAGS)}
+    rs = directive.RuntimeState(dict(state))
+    so = G_STDOUT[c['stdout']]
+    want = G_WANT[c['want']]
+    has_value = c['value'] != 0
+    val = _Val(G_VALUE[c['value']]) if has_value else constants.NOT_EVALED
+    cands = [so]
+    if has_value:
+        r = G_VALUE[c['value']]
+        cands = [r] if not so else [so, r, so + r]
+    exp = any(checker.check_output(g, want, directive.RuntimeState(dict(state))) for g in cands)
+    try:
+        got = bool(checker.check_got_vs_want(want, so, val, rs))
+    except checker.GotWantException:
+        got = False
+    except Exception as e:
+        return ['check_got_vs_want raises %s: %s' % (type(e).__name__, e)]
+    if got != exp:
+        return ['stdout %r value %s want %r under %r: accepted=%r, but the candidates %r %s under these flags' % (
+            so, G_VALUE[c['value']], want, state, got, cands, 'match' if exp else 'do not match')]
+    return []
+
+
+class Flags(Harness):
+    witnesses = ('matches_only_with_ellipsis', 'fallback_to_the_value', 'printed_then_value')
+
+    def __init__(self, job):
+        from .common import instrumented
+        instrumented()
+        from xdoctest import checker, directive, constants
+        self.mods = (checker, directive, constants)
+        self.job = job
+        self.so, self.val, self.want = z3.Int('stdout'), z3.Int('value'), z3.Int('want')
+        self.flags = [z3.Bool(f) for f in G_FLAGS]
+        self.base = [self.so >= 0, self.so < len(G_STDOUT), self.val >= 0, self.val < len(G_VALUE), self.want >= 0, self.want < len(G_WANT)]
+
+    def case(self, n, b):
+        return {'harness': 'flags', 'stdout': n(self.so), 'value': n(self.val), 'want': n(self.want), 'flags': [b(f) for f in self.flags]}
+
+    def run(self, ex):
+        from sea.core import SymBool, SymInt
+        c = self.case(lambda v: int(SymInt(v)), lambda v: bool(SymBool(v)))
+        bad = flags_problems(*self.mods, c)
+        self.last_error = bad
+        if not bad:
+            checker, directive, constants = self.mods
+            if G_WANT[c['want']] == 'a...b' and c['stdout'] == 2 and c['value'] == 0:
+                ex.witness('matches_only_with_ellipsis', True)
+            if c['stdout'] == 1 and c['value'] == 1 and G_WANT[c['want']] == 'a...b' and not c['flags'][0]:
+                ex.witness('fallback_to_the_value', True)
+            if c['stdout'] == 1 and c['value'] == 1 and G_WANT[c['want']] == 'x\na7b':
+                ex.witness('printed_then_value', True)
+        return {'every_comparison_uses_the_active_flags': z3.BoolVal(not bad)}
+
+    def describe(self, model):
+        return self.case(lambda v: model.eval(v, model_completion=True).as_long(), lambda v: z3.is_true(model.eval(v, model_completion=True)))
+
+
 def build(job):
+    if job.get('harness') == 'flags':
+        return Flags(job)
     return Verdict(job)
 
 
@@ -312,6 +393,10 @@ def real_run(parts):
 
 
 def replay(job, cex):
+    if cex.get('harness') == 'flags':
+        from xdoctest import checker, directive, constants
+        bad = flags_problems(checker, directive, constants, cex)
+        return {'reproduced': bool(bad), 'detail': '; '.join(bad), 'signature': 'C02:flags'}
     if cex.get('variant') != 'eq':
         return {'reproduced': False, 'abstract': True,
                 'detail': 'counterexample for an arbitrary match relation; not realisable without fixing M (see the eq variant)'}
